@@ -212,6 +212,7 @@ func TestC13(t *testing.T) {
 			o := gen.DefaultHistOpt(limits(), false)
 			o.MaxUnits, o.MaxTables, o.MaxCols, o.MaxRows = 6, 2, 5, 3
 			o.BigBase = false
+			o.Scale = false
 			o.Col = gen.ColumnOpt{Only: []byte{refenc.TVarchar, refenc.TBlob, refenc.TString, refenc.TGeometry}}
 			c := drawE2E(rt, o)
 			rec.Case(true, c, "e2e/history-with-large-values")
